@@ -235,6 +235,18 @@ def r5(ctx):
         ctx.check("TradingSummaryGenerator::init:" + field, ok,
                   "each entry pairs an entity's own name with that same entity's own statistics generator",
                   got=got, want=(src, pair), key="pairing")
+    # the maps are accessed positionally by InstrumentIndex / AssetIndex (InstrumentTearSheetManager): nothing may reorder them
+    from rules import common_idx
+    for blk in b.blocks:
+        for st in blk["stmts"]:
+            rv = st.get("rv")
+            if rv and rv["r"] == "agg" and rv["kind"].get("adt") == TS:
+                for fld in ("instruments", "assets"):
+                    i = rv["kind"]["fields"].index(fld)
+                    muts = common_idx._local_mutators(b, rv["ops"][i])
+                    ctx.check("TradingSummaryGenerator::init:" + fld, not muts,
+                              "the per-entity table keeps the engine's index order (it is looked up by position)",
+                              sites=[x[1] for x in muts], got=[x[0] for x in muts], key="order-kept")
     gen = ctx.find(name="generate", self_adt=TS, trait="")
     b = ctx.body(gen)
     rt = b.return_term()
